@@ -6,6 +6,7 @@ mod c10;
 mod cases;
 mod ep;
 mod gen;
+mod large;
 mod slow;
 mod tls;
 
@@ -43,26 +44,16 @@ impl Server {
 }
 
 fn probe(server: &Server) {
-    let body: &[u8] = b"--XB\r\nContent-Disposition: form-data; name=\"f\"\r\n\r\nhello\r\n--XB--\r\n";
-    let cts = [
-        "multipart/form-data ;\tboundary=XB",
-        "multipart/form-data;; boundary=XB",
-        "multipart/form-data; ; boundary=XB",
-        "multipart/form-data; boundary=XB;",
-        "multipart/form-data; x=\"\"; boundary=XB",
-        "multipart/form-data; x=\"a\\\"b\"; boundary=XB",
-        "multipart/form-data; x=\"a\tb\"; boundary=XB",
-        "multipart/form-data; x=\"q ; r\"; boundary=XB",
-        "multipart/form-data; boundary=\"XB\"",
-        "multipart/form-data; boundary=XB; x=\"\"",
-    ];
-    let reqs: Vec<Vec<u8>> = cts
-        .iter()
-        .map(|ct| {
-            println!("CT: {:?}", ct);
-            live::request("POST", "/b/mp", &[("Content-Type", ct)], Some(body))
-        })
-        .collect();
+    let mut reqs: Vec<Vec<u8>> = vec![];
+    for n in [8193usize, 40000, 65000, 65500, 65534, 65535, 66000, 100000, 500000] {
+        println!("CT: path-len {}", n);
+        reqs.push(live::request("GET", &format!("/p/str/{}", "a".repeat(n)), &[], None));
+    }
+    for d in [120usize, 126, 127, 128, 129, 200] {
+        println!("CT: json-depth {}", d);
+        let body = format!("{{\"s\":\"x\",\"n\":1,\"big\":1,\"b\":true,\"c\":\"c\",\"e\":\"Red\",\"l\":[],\"u\":{}{}}}", "[".repeat(d), "]".repeat(d));
+        reqs.push(live::request("PUT", "/b/json", &[], Some(body.as_bytes())));
+    }
     for r in reqs {
         let head = String::from_utf8_lossy(&r[..r.len().min(120)]).to_string();
         let before = server.ctx().total();
@@ -80,8 +71,43 @@ fn probe(server: &Server) {
     let _ = Conn::open(server.addr);
 }
 
+/// deal the lines, longest first, into 16 equally long blocks, always into the
+/// lightest block that still has room; deterministic
+fn balance(buffer: &[u8], out: &mut dyn std::io::Write) {
+    let lines: Vec<&[u8]> = buffer.split(|b| *b == b'\n').filter(|l| !l.is_empty()).collect();
+    let n = lines.len();
+    let shards = 16usize;
+    let per = (n + shards - 1) / shards.max(1);
+    let mut order: Vec<usize> = (0..n).collect();
+    order.sort_by(|a, b| lines[*b].len().cmp(&lines[*a].len()).then(a.cmp(b)));
+    let mut blocks: Vec<Vec<usize>> = vec![vec![]; shards];
+    let mut weight = vec![0usize; shards];
+    for i in order {
+        let mut best = None;
+        for b in 0..shards {
+            if blocks[b].len() < per.max(1) && best.map(|k: usize| weight[b] < weight[k]).unwrap_or(true) {
+                best = Some(b);
+            }
+        }
+        let b = best.unwrap_or(0);
+        blocks[b].push(i);
+        weight[b] += lines[i].len();
+    }
+    for b in blocks.iter_mut() {
+        b.sort();
+        for i in b.iter() {
+            let _ = out.write_all(lines[*i]);
+            let _ = out.write_all(b"\n");
+        }
+    }
+}
+
 fn main() {
-    dsverif::cli::main(|o, replay, out| {
+    dsverif::cli::main(|o, replay, real_out| {
+        // the lines are collected and written in an order that spreads the long terms evenly
+        // over the driver's 16 contiguous evaluation shards (see balance())
+        let mut buffer: Vec<u8> = vec![];
+        let out: &mut dyn std::io::Write = &mut buffer;
         let server = Server::start();
         match (o.mode.as_str(), replay) {
             ("probe", _) => probe(&server),
@@ -118,12 +144,17 @@ fn main() {
                 // the slow-client slice runs beside everything else: started first, joined last
                 let slow_run = slow::start(o.seed, o.thorough);
                 c09::gen_all(&server, o.seed, o.thorough, out);
+                large::gen_c09(&server, o.seed, o.thorough, out);
                 tls::gen_all(o.seed, o.thorough, out);
                 slow::finish(slow_run, out);
             }
-            ("c10", None) => c10::gen_all(&server, o.seed, o.thorough, out),
+            ("c10", None) => {
+                c10::gen_all(&server, o.seed, o.thorough, out);
+                large::gen_c10(&server, o.thorough, out);
+            }
             (m, _) => panic!("unknown mode {:?}", m),
         }
         server.stop();
+        balance(&buffer, real_out);
     });
 }
